@@ -8,30 +8,30 @@ COQ_REQUIRE = ["M_Messaging", "M_Lifecycle"]
 COQ_CASE_TYPE = "M_Lifecycle.case"
 COQ_CHECK = "M_Lifecycle.check_case"
 OBLIGATIONS = ["held_posts_sent_in_order", "held_handled_exactly_once", "held_handled_once_in_order",
-               "held_handled_all_when_quiescent", "held_order_refuted"]
+               "held_handled_all_when_quiescent", "held_order_refuted", "held_priority_refuted"]
 N_QUICK, N_THOROUGH = 400, 6000
 RULE = ("seeded random histories of Recv / Next / Start / Stop / Pause / Resume / Post (0-40 ops, 1-3 "
-        "senders, 1-2 targets, mostly default message type, some with explicit types 10/15/19/20/25 and "
-        "explicit post priorities) on one real MessagePassingComputation hosted on a real (unthreaded) "
+        "senders, 1-2 targets; 63% default message type, 12% one other type 10/15/19/25 for all messages, "
+        "25% mixed types 10/15/19/20/25 and explicit post priorities) on one real MessagePassingComputation hosted on a real (unthreaded) "
         "Agent + Messaging; 70% of the histories end with Start, Resume and enough Next to drain; "
         "non-trivial = at least one message was buffered on reception or on posting; distinct = distinct "
         "op list")
 MODELLED = ("start/stop/pause/on_message/post_msg and the agent queue are modelled (M_Lifecycle.v); theorems "
             "for all histories: posts are sent exactly once in posting order; every received message is "
-            "in exactly one of handled/held/queued; with default message types and no re-injection while "
-            "re-injected messages still wait, handled++held++queued is the reception sequence (once, in "
-            "order, before newer); the excluded case is refuted by a witness (known finding). Real "
-            "threads are not involved (C18/C21).")
+            "in exactly one of handled/held/queued; when all messages have one type > 19 (the default 20) "
+            "and no re-injection happens while re-injected messages still wait, handled++held++queued is "
+            "the reception sequence (once, in order, before newer); each excluded case is refuted by a "
+            "witness (two known findings). Real threads are not involved (C18/C21).")
 META = dict(
     level_text=("Proof (Coq) over all histories of receptions, posts, starts, stops, pauses and resumes of a "
                 "model of MessagePassingComputation composed with the agent's priority queue: messages "
                 "posted while paused are sent exactly once, in posting order, on resume; every received "
-                "message is handled at most once and is never lost; when the message types are the default "
-                "and no start/resume re-injects while earlier re-injected messages are still queued, the "
-                "handled sequence followed by the held and queued messages is exactly the reception "
-                "sequence. The remaining case (pause, pop, resume while re-injected messages wait) violates "
-                "the order in the real code: proved as a refutation witness and recorded as a known "
-                "finding. The model is tied to computations.py / communication.py by a differential run on "
+                "message is handled at most once and is never lost; when the messages have one type above 19 "
+                "(the default 20) and no start/resume re-injects while earlier re-injected messages are "
+                "still queued, the handled sequence followed by the held and queued messages is exactly the "
+                "reception sequence. The two remaining cases (pause, pop, resume while re-injected messages "
+                "wait; held messages of type <= 19, which are re-queued as type 19) violate the order in "
+                "the real code: each is proved as a refutation witness and recorded as a known finding. The model is tied to computations.py / communication.py by a differential run on "
                 "generated histories on every check."),
     level_note=("Trusted: Coq kernel/vm_compute, the hand-written model M_Lifecycle.v (+ the queue of "
                 "M_Messaging.v), the harness driver. Handlers and on_start/on_pause hooks are the base "
@@ -42,6 +42,7 @@ META = dict(
 
 ME = 0
 FINDING = "C19-reinject-behind-queued"
+FINDING_PRIO = "C19-held-requeued-as-19"
 
 
 # ------------------------------------------------------------------ generator
@@ -49,6 +50,7 @@ def gen(rng, n, tier):
     cases = []
     for k in range(n):
         mixed = rng.random() < 0.25
+        uniform = None if mixed or rng.random() < 0.84 else rng.choice([10, 15, 19, 25])
         nsend = rng.randint(1, 3)
         ntgt = rng.randint(1, 2)
         length = rng.choice([0, 1, 2, 3, 5, 8, 12, 20, 30, 40]) if rng.random() < 0.5 else rng.randint(0, 40)
@@ -63,7 +65,8 @@ def gen(rng, n, tier):
             kind = rng.choices(kinds, [w[x] for x in kinds])[0]
             if kind == "recv":
                 mid += 1
-                ty = rng.choice([None, None, 20, 10, 15, 19, 25]) if mixed else rng.choice([None, None, None, 20])
+                ty = rng.choice([None, None, 20, 10, 15, 19, 25]) if mixed else \
+                    uniform if uniform is not None else rng.choice([None, None, None, 20])
                 ops.append(["recv", 5 + rng.randrange(nsend), mid, ty])
             elif kind == "post":
                 mid += 1
@@ -158,6 +161,12 @@ def _is_default(case):
     return all(op[3] in (None, 20) for op in case["ops"] if op[0] == "recv")
 
 
+def _uniform_type(case):
+    """the one effective type of all received messages, or None"""
+    ts = {20 if op[3] is None else op[3] for op in case["ops"] if op[0] == "recv"}
+    return ts.pop() if len(ts) == 1 else (20 if not ts else None)
+
+
 def oracle(case, o):
     ops = case["ops"]
     recv = [[op[1], op[2]] for op in ops if op[0] == "recv"]
@@ -185,7 +194,7 @@ def oracle(case, o):
     if o["running"] and not o["paused"] and o["brecv"]:
         return "once: %d messages still held although the computation runs" % len(o["brecv"])
     # --- order (same message type): handled in reception order and before newer ones
-    if _is_default(case):
+    if _uniform_type(case) is not None:
         h = o["handled"]
         if h != recv[:len(h)]:
             return "order: handled %r, reception order %r" % (h[:10], recv[:10])
@@ -197,7 +206,14 @@ def oracle(case, o):
 def classify(case, o, msg):
     # the one recorded defect: a start/resume re-injected held messages while messages re-injected
     # earlier (type 19) were still queued; only order failures of such histories are instances
-    if msg.startswith("order:") and o.get("unsafe"):
+    if not msg.startswith("order:"):
+        return None
+    t = _uniform_type(case)
+    reinjected = any(c[1] == ME for c in o.get("calls", []))
+    # held messages are re-queued with type 19: with an original type <= 19 they lose their place
+    if t is not None and t <= 19 and reinjected:
+        return FINDING_PRIO
+    if o.get("unsafe"):
         return FINDING
     return None
 
@@ -240,10 +256,11 @@ def _buffered_post(case):
 
 
 def histogram(cases, obs):
-    h = {"default_types": 0, "mixed_types": 0, "unsafe_reinject": 0, "reinjected>=2": 0, "buffered_posts": 0,
+    h = {"default_types": 0, "mixed_types": 0, "uniform_other_type": 0, "unsafe_reinject": 0, "reinjected>=2": 0, "buffered_posts": 0,
          "len0-5": 0, "len6-20": 0, "len>20": 0}
     for c, o in zip(cases, obs):
-        h["default_types" if _is_default(c) else "mixed_types"] += 1
+        h["default_types" if _is_default(c) else "uniform_other_type" if _uniform_type(c) is not None
+          else "mixed_types"] += 1
         if isinstance(o, dict) and o.get("unsafe"):
             h["unsafe_reinject"] += 1
         if isinstance(o, dict) and sum(1 for x in o.get("calls", []) if x[1] == ME) >= 2:
